@@ -108,6 +108,90 @@ class Facts:
             if cond is not None and cond.kind == "for":
                 continue
             out += make_facts(pol, e, fn, cond)
+            out += self._through_flag(pol, e, fn, sc, cond)
+        return out
+
+    def _pv(self):
+        if getattr(self, "PV", None) is None:
+            from .prov import Prov
+            self.PV = Prov(self.A)
+        return self.PV
+
+    def _through_flag(self, pol, e, fn, sc, cond, depth=0):
+        """`flag = <boolean expression>; if flag:` - the facts of the defining expression hold too, provided
+        the flag has exactly one reaching definition at the test and none of its operands is redefined between
+        the definition and the test."""
+        truth = pol == "T"
+        while isinstance(e, ast.UnaryOp) and isinstance(e.op, ast.Not):
+            e = e.operand
+            truth = not truth
+        if not isinstance(e, ast.Name) or cond is None or depth > 3 or isinstance(fn.node, ast.Lambda):
+            return []
+        PV = self._pv()
+        try:
+            rds = PV.reaching(fn, sc, e.id, cond)
+        except AnalysisError:
+            return []
+        if len(rds) != 1 or rds[0].kind != "assign" or rds[0].value is None:
+            return []
+        d = rds[0]
+        val = d.value
+        for n in ast.walk(val):
+            if isinstance(n, ast.Name) and isinstance(n.ctx, ast.Load):
+                a = {x.cnode.id for x in PV.reaching(fn, sc, n.id, d.cnode)}
+                b = {x.cnode.id for x in PV.reaching(fn, sc, n.id, cond)}
+                if a != b:
+                    return []
+        return self._derive(truth, val, fn, sc, d.cnode, depth)
+
+    def _derive(self, truth, val, fn, sc, at, depth):
+        while isinstance(val, ast.UnaryOp) and isinstance(val.op, ast.Not):
+            val = val.operand
+            truth = not truth
+        if isinstance(val, ast.BoolOp):
+            if (isinstance(val.op, ast.And) and truth) or (isinstance(val.op, ast.Or) and not truth):
+                out = []
+                for v in val.values:
+                    out += self._derive(truth, v, fn, sc, at, depth)
+                return out
+            return []
+        if isinstance(val, ast.Constant):
+            return []
+        out = make_facts("T" if truth else "F", val, fn, at, via="flag")
+        out += self._through_flag("T" if truth else "F", val, fn, sc, at, depth + 1)
+        return out
+
+    def expanded(self, fn, sc, cnode, PV, canon=None, stop=()):
+        """Local must-facts at cnode as canonical strings with every local name replaced by its
+        definition(s) at the *condition's* node (so `if n > 255` after `n = len(xs)` reads
+        `len(xs) > 255`).  canon: optional text canonicaliser (e.g. Layout.intexpr on a parsed
+        expression).  A fact whose operands have several expansions yields one string per
+        combination; raw (unexpanded) texts are included too."""
+        out = set()
+        cv = canon or (lambda e: norm(e))
+
+        def exp(e, at):
+            try:
+                vs = PV.expand_consistent(fn, sc, e, at, stop=stop)
+            except AnalysisError:
+                return {norm(e)}
+            res = set()
+            for v in vs:
+                try:
+                    res.add(cv(ast.parse(v, mode="eval").body))
+                except SyntaxError:
+                    res.add(v)
+            return res or {norm(e)}
+        for f in self.local(fn, sc, cnode):
+            out.add(f.text())
+            at = f.node if f.node is not None else cnode
+            if f.kind == "cmp":
+                for l in exp(f.left, at):
+                    for r in exp(f.right, at):
+                        out.add(f"{l} {f.op} {r}")
+            else:
+                for v in exp(f.expr, at):
+                    out.add(("" if f.pol else "not ") + v)
         return out
 
     def completed_calls(self, fn, sc, cnode, include_self=False):
